@@ -76,6 +76,16 @@ fn engine(kind: &str, query: &str, rb: Arc<RankBuilder>) -> Option<Box<dyn Match
                 .build(),
         ),
         "all" => Box::new(MatchAllEngine::builder().rank_builder(rb).build()),
+        // through the factories, built the way Model::new builds them (the term's prefix / suffix characters choose the engine)
+        "fx0" | "fx1" => ExactOrFuzzyEngineFactory::builder()
+            .exact_mode(kind == "fx1")
+            .rank_builder(rb)
+            .build()
+            .create_engine_with_case(query, CaseMatching::Respect),
+        "frx" => RegexEngineFactory::builder()
+            .rank_builder(rb)
+            .build()
+            .create_engine_with_case(query, CaseMatching::Respect),
         _ => return None,
     })
 }
